@@ -201,4 +201,19 @@ RemovePost(s, hx, c, lg) ==
    hidx  |-> [hx EXCEPT ![c - 1] = None],
    count |-> c - 1,
    last  |-> s[lg].pre]
+
+(* Group fork switch (fork_group.go: triggerOnChain): remove from the top down to the common
+   ancestor anc (removeFromCommonAncestor), then AddGroup the fork's groups in order; the first
+   group that cannot be added (its id is still on the chain) stops the switch. *)
+RECURSIVE RemoveDownTo(_, _)
+RemoveDownTo(r, anc) ==      \* r = [store, hidx, count, last]
+  IF r.last = anc \/ r.last = Genesis \/ ~r.store[r.last].present THEN r
+  ELSE RemoveDownTo(RemovePost(r.store, r.hidx, r.count, r.last), anc)
+RECURSIVE AddAll(_, _)
+AddAll(r, ids) ==
+  IF ids = <<>> THEN r
+  ELSE IF r.store[Head(ids)].present \/ r.count >= MaxCount THEN r
+  ELSE AddAll(AddPost(r.store, r.hidx, r.count, r.last, Head(ids)), Tail(ids))
+ForkPost(s, hx, c, lg, anc, ids) ==
+  AddAll(RemoveDownTo([store |-> s, hidx |-> hx, count |-> c, last |-> lg], anc), ids)
 =============================================================================
